@@ -370,8 +370,251 @@ def run(ctx):
                f"C attributes {sorted(attrs - assigned)} are not initialised by __cinit__ (and therefore not after unpickling)",
                meths["__cinit__"].lineno)
 
+    bucket_rules(ctx, s, low)
+    width_and_selector_rules(ctx, s, low)
+
+
+def nearest_def(func, node, name):
+    """the assignment to `name` (or the for-loop that binds it) that precedes `node` most closely in the enclosing blocks"""
+    def contains(st):
+        return any(x is node for x in ast.walk(st))
+
+    def search(block):
+        for k, st in enumerate(block):
+            if contains(st):
+                inner = None
+                for fld in ("body", "orelse", "finalbody"):
+                    sub = getattr(st, fld, None)
+                    if isinstance(sub, list) and any(contains(b) for b in sub):
+                        inner = search(sub)
+                if inner is not None:
+                    return inner
+                if isinstance(st, ast.For) and any(isinstance(x, ast.Name) and x.id == name for x in ast.walk(st.target)) \
+                        and any(contains(b) for b in st.body):
+                    return st
+                for prev in reversed(block[:k]):
+                    if isinstance(prev, ast.Assign) and any(isinstance(t, ast.Name) and t.id == name for t in prev.targets):
+                        return prev
+                    if isinstance(prev, ast.AugAssign) and isinstance(prev.target, ast.Name) and prev.target.id == name:
+                        continue             # `ptr += 2`: still the same array
+                    if any(isinstance(x, ast.Name) and x.id == name and isinstance(x.ctx, ast.Store) for x in ast.walk(prev)):
+                        return prev          # bound inside a compound statement: not a plain definition
+                return None
+        return None
+    return search(func.body)
+
+
+def bucket_rules(ctx, s, low):
+    """R4 (bucketed table): a k-mer is looked for in the bucket it hashes to.  For every comparison `stored == wanted` whose left
+    side is read through a bucket pointer of a table, the bucket index is `wanted % n_buckets`, or the loop counter over the
+    buckets when `wanted` was itself read from the same-numbered bucket of another table of the same size."""
+    n = 0
+    for mname, f in s.methods("BucketKmerTable").items():
+        qual = f"BucketKmerTable.{mname}"
+        views = ptr_views(low, qual, f)
+        if not views:
+            continue
+        for cmp_ in [c for c in walk_local(f) if isinstance(c, ast.Compare) and len(c.ops) == 1 and isinstance(c.ops[0], ast.Eq)
+                     and isinstance(c.left, ast.Name) and isinstance(c.comparators[0], ast.Name)]:
+            sides = [cmp_.left.id, cmp_.comparators[0].id]
+
+            def through_bucket(name):
+                """(pointer variable, bucket index expression, array) if `name` is loaded through a bucket pointer"""
+                d = nearest_def(f, cmp_, name)
+                if not isinstance(d, ast.Assign):
+                    return None
+                ptrs = [x.id for x in ast.walk(d.value) if isinstance(x, ast.Name)]
+                for pv in ptrs:
+                    dp = nearest_def(f, d, pv)
+                    if isinstance(dp, ast.Assign) and isinstance(dp.value, ast.Subscript) and (
+                            isinstance(dp.value.value, ast.Name) and dp.value.value.id in views or dotted(dp.value.value) == "self._ptr_array"):
+                        return pv, dp.value.slice, dotted(dp.value.value), dp
+                return None
+            info = [through_bucket(x) for x in sides]
+            stored = [(sides[k], info[k]) for k in (0, 1) if info[k] is not None]
+            if not stored:
+                continue
+            for k in (0, 1):
+                if info[k] is None:
+                    continue
+                wanted = sides[1 - k]
+                pv, bidx, arr, dp = info[k]
+                n += 1
+                ok = False
+                why = ast.unparse(bidx)
+                if not isinstance(bidx, ast.Name):
+                    ok = same_expr(bidx, f"{wanted} % self._n_buckets")
+                else:
+                    db = nearest_def(f, dp, bidx.id)
+                    if isinstance(db, ast.Assign):
+                        ok = same_expr(db.value, f"{wanted} % self._n_buckets")
+                        why = ast.unparse(db.value)
+                    elif isinstance(db, ast.For):
+                        # loop over the buckets: the other side must come from the same-numbered bucket of a table
+                        other = info[1 - k]
+                        ok = other is not None and isinstance(other[1], ast.Name) and other[1].id == bidx.id
+                        why = f"loop counter {bidx.id}"
+                ctx.ob("R4.bucket-of-the-kmer", KT, qual, f"{sides[k]} (bucket {why}) == {wanted}", ok,
+                       f"`{sides[k]}` is read from bucket `{why}` but compared with `{wanted}`: a k-mer is stored in bucket kmer % n_buckets, "
+                       "any other bucket cannot contain it (matches are silently lost)", cmp_.lineno)
+    ctx.floor("bucket-comparisons", n, 6)
+
+
+KA = "sequence/align/kmeralphabet.pyx"
+KS = "sequence/align/kmersimilarity.pyx"
+SEL = "sequence/align/selector.pyx"
+WIDE64 = {"int64", "uint64", "np.int64_t", "np.uint64_t", "Py_ssize_t", "long long"}
+
+
+def width_and_selector_rules(ctx, s, low):
+    from ..exprnorm import summarize, field_of, same_expr as _same, check_spec
+    from ..lints import super_init_forwards
+    # ---- R5.kmer-arithmetic-64-bit: every declared local that enters the arithmetic of a k-mer code is 64 bits wide (a k-mer
+    # code of a nucleotide 17-mer does not fit 32 bits); symbol codes (fused CodeType) are promoted by their 64-bit partner
+    ka = ctx.src(KA)
+    n = 0
+    for q, f in ka.funcs.items():
+        decl = ka.low.decls.get(q, {})
+        accs = {t.value.id for st in walk_local(f) if isinstance(st, ast.Assign) for t in st.targets
+                if isinstance(t, ast.Subscript) and isinstance(t.value, ast.Name) and t.value.id == "kmers"
+                for v in [st.value] if isinstance(v, ast.Name)} & set(decl)
+        kvars = {x.id for st in walk_local(f) if isinstance(st, ast.Assign) and isinstance(st.targets[0], ast.Subscript)
+                 and isinstance(st.targets[0].value, ast.Name) and st.targets[0].value.id == "kmers" for x in [st.value] if isinstance(x, ast.Name)}
+        if not kvars:
+            continue
+        # transitive: names that feed the k-mer variables
+        feeding = set(kvars)
+        for _ in range(4):
+            for st in walk_local(f):
+                tg = st.targets[0] if isinstance(st, ast.Assign) else st.target if isinstance(st, ast.AugAssign) else None
+                if isinstance(tg, ast.Name) and tg.id in feeding:
+                    for x in ast.walk(st.value):
+                        if isinstance(x, ast.Name) and x.id in decl:
+                            feeding.add(x.id)
+        for v in sorted(feeding):
+            t = decl.get(v, "").replace("const ", "").strip()
+            if not t or t in ("int",) and v in ("k",):
+                continue
+            base = t.split("[")[0]
+            # loop counters used only as subscripts do not enter the value
+            used_as_value = any(isinstance(x, ast.Name) and x.id == v and not _only_index(f, x) for x in walk_local(f))
+            if not used_as_value:
+                continue
+            n += 1
+            ctx.ob("R5.kmer-arithmetic-64-bit", KA, q, f"{v}: {t}", base in WIDE64 or base in ("CodeType",),
+                   f"`{v}` enters the computation of k-mer codes but is declared {t}: the value (a power of the alphabet size, a partial k-mer code) "
+                   "wraps at 2^32 for large k", f.lineno)
+    ctx.floor("kmer-arithmetic-locals", n, 6)
+    # ---- R5.table-entries-unsigned: the position / reference-id arrays behind the pointer arrays are read as uint32
+    m = 0
+    for cls in TABLES:
+        for mname, f in s.methods(cls).items():
+            qual = f"{cls}.{mname}"
+            views = ptr_views(low, qual, f)
+            decl = low.decls.get(qual, {})
+            for st in walk_local(f):
+                if isinstance(st, ast.Assign) and len(st.targets) == 1 and isinstance(st.targets[0], ast.Name) and isinstance(st.value, ast.Subscript) \
+                        and (isinstance(st.value.value, ast.Name) and st.value.value.id in views or dotted(st.value.value) == "self._ptr_array"):
+                    v = st.targets[0].id
+                    t = decl.get(v, "").replace(" ", "")
+                    if not t:
+                        continue
+                    m += 1
+                    # an int64* view is the way the 64-bit length header (element 0) is read
+                    header_only = t == "int64*" and all(isinstance(x.slice, ast.Constant) and x.slice.value == 0 for x in walk_local(f)
+                                                        if isinstance(x, ast.Subscript) and isinstance(x.value, ast.Name) and x.value.id == v)
+                    ctx.ob("R5.table-entries-unsigned", KT, qual, f"{v}: {t}", t == "uint32*" or header_only,
+                           f"the arrays behind the pointer array hold uint32 entries (reference ids and positions up to 2^32-1): read through `{t}` "
+                           "a large id comes back negative / truncated", st.lineno)
+    ctx.floor("pointer-locals", m, 15)
+    # ---- R5.bucket-kmer-read-64-bit: a bucket stores (k-mer code: 64 bit, reference id: 32 bit, position: 32 bit) entries; the code
+    # that is compared with the wanted k-mer has to be read through an int64 view (a plain `bucket_ptr[j]` is its low half)
+    for mname, f in s.methods("BucketKmerTable").items():
+        qual = f"BucketKmerTable.{mname}"
+        views = ptr_views(low, qual, f)
+        decl = low.decls.get(qual, {})
+        cast_lines = {ln: ty for ln, ty, q_ in low.casts if q_ == qual}
+        for cmp_ in [c for c in walk_local(f) if isinstance(c, ast.Compare) and len(c.ops) == 1 and isinstance(c.ops[0], ast.Eq)
+                     and isinstance(c.left, ast.Name) and isinstance(c.comparators[0], ast.Name)]:
+            for side in (cmp_.left.id, cmp_.comparators[0].id):
+                d = nearest_def(f, cmp_, side)
+                if not isinstance(d, ast.Assign) or not isinstance(d.value, ast.Subscript):
+                    continue
+                ptrs = [x.id for x in ast.walk(d.value.value) if isinstance(x, ast.Name) and decl.get(x.id, "").replace(" ", "") == "uint32*"]
+                if not ptrs:
+                    continue
+                wide = any(cast_lines.get(ln, "").replace(" ", "") == "int64*" for ln in range(d.lineno, (d.end_lineno or d.lineno) + 1))
+                ctx.ob("R5.bucket-kmer-read-64-bit", KT, qual, f"{ast.unparse(d)[:60]}", wide,
+                       f"`{side}` is the stored k-mer code that is compared with the wanted one, but it is read through the uint32 pointer "
+                       f"`{ptrs[0]}` without an <int64*> view: only the low 32 bits are compared (k-mer codes >= 2^32 are never found, others "
+                       "are found in their place)", d.lineno)
+    # ---- R5.mask-window: the positions of the ignore mask that decide about k-mer i are the positions of k-mer i
+    km = s.func("_to_kmer_mask")
+    n_mw = 0
+    for lp in walk_local(km):
+        if not (isinstance(lp, ast.For) and isinstance(lp.target, ast.Name) and any(
+                isinstance(st, ast.Assign) and isinstance(st.targets[0], ast.Subscript) and _same(st.targets[0], f"kmer_mask[{lp.target.id}]") for st in lp.body)):
+            continue
+        iv = lp.target.id
+        for sub in [x for b in lp.body for x in ast.walk(b) if isinstance(x, ast.Subscript) and isinstance(x.value, ast.Name) and x.value.id == "mask"
+                    and isinstance(x.ctx, ast.Load)]:
+            n_mw += 1
+            dep = {n_.id for n_ in ast.walk(sub.slice) if isinstance(n_, ast.Name)}
+            # names derived from the k-mer position inside the loop (inner loop counters over range(i, ..))
+            for inner in [x for b in lp.body for x in ast.walk(b) if isinstance(x, ast.For) and isinstance(x.target, ast.Name)]:
+                if inner.target.id in dep and any(isinstance(n_, ast.Name) and n_.id == iv for n_ in ast.walk(inner.iter)):
+                    dep.add(iv)
+            ctx.ob("R5.mask-window", KT, "_to_kmer_mask", f"kmer_mask[{iv}] <- {ast.unparse(sub)}", iv in dep,
+                   f"k-mer {iv} is kept or dropped according to `{ast.unparse(sub)}`, which does not depend on {iv}: every k-mer is judged by the "
+                   "same mask positions (spaced k-mers: the first positions of the sequence)", sub.lineno)
+    ctx.floor("mask-window-reads", n_mw, 2)
+    # ---- R5 similarity rule: the pruning bound of ScoreThresholdRule is the largest score a symbol can reach with ANY partner
+    sk = ctx.src(KS).func("ScoreThresholdRule.similar_kmers")
+    ms = [st for st in walk_local(sk) if isinstance(st, ast.Assign) and _same(st.targets[0], "max_scores")]
+    used = any(isinstance(a, ast.AugAssign) and _same(a.target, "total_max_score") and _same(a.value, "max_scores[split_kmer[i]]") for a in walk_local(sk))
+    ctx.ob("R5.pruning-bound-is-row-maximum", KS, "ScoreThresholdRule.similar_kmers", ast.unparse(ms[0].value)[:70] if ms else "?",
+           len(ms) == 1 and used and (_same(ms[0].value, "np.max(self._matrix.score_matrix(), axis=-1)") or _same(ms[0].value, "np.max(self._matrix.score_matrix(), axis=1)")
+                                      or _same(ms[0].value, "np.max(matrix, axis=-1)") or _same(ms[0].value, "np.max(matrix, axis=1)")),
+           "branches are cut when even the best continuation cannot reach the threshold: the bound per symbol must be the maximum of its "
+           "matrix row (the diagonal is smaller for symbols like X, similar k-mers are then lost)", sk.lineno)
+    # ---- R5 selectors
+    super_init_forwards(ctx, SEL, "R5.selector-init-forwards", 1)
+    mi = ctx.src(SEL).func("MincodeSelector.__init__")
+    th = field_of(summarize(mi), "self", "_threshold")
+    ctx.ob("R5.mincode-threshold", SEL, "MincodeSelector.__init__", "offset + range / compression, range = max - min + 1 (or the alphabet size)",
+           th is not None and _same(th, "(0 if permutation is None else permutation.min) + "
+                                        "(len(kmer_alphabet) if permutation is None else permutation.max - permutation.min + 1) / compression"),
+           "a permutation maps onto min..max inclusive: max - min + 1 values; the threshold is the offset plus that range divided by the "
+           "compression factor; the code computes " + (ast.unparse(th)[:160] if th is not None else "nothing"), mi.lineno)
+
+
+def _only_index(func, name_node):
+    """is this occurrence of a name merely (part of) a subscript index"""
+    for sub in ast.walk(func):
+        if isinstance(sub, ast.Subscript) and any(x is name_node for x in ast.walk(sub.slice)):
+            return True
+    return False
+
 
 MUTANTS = [
+    Mutant("repair-spaced-mask-window", KT, "                if mask[j + offset]:\n", "                if mask[i + offset]:\n", "R5.mask-window", "_to_kmer_mask", kind="repair"),
+    Mutant("continuous-mask-window-fixed", KT, "            for j in range(i, i + k):\n                if mask[j]:\n", "            for j in range(0, k):\n                if mask[j]:\n", "R5.mask-window"),
+    Mutant("repair-bucket-getitem-64-bit", KT, "                self_kmer = bucket_ptr[j]\n", "                self_kmer = (<int64*>(bucket_ptr + j))[0]\n", "R5.bucket-kmer-read-64-bit",
+           "BucketKmerTable.__getitem__", kind="repair"),
+    Mutant("bucket-match-low-half", KT, "                            self_kmer = (<int64*>bucket_ptr)[0]\n                            if self_kmer == other_kmer:\n                                # The k-mers are not only in the same\n                                # bucket, but they are actually equal\n                                if match_i >= matches.shape[0]:\n                                    # The 'matches' array is full\n                                    # -> double its size\n                                    matches = expand(np.asarray(matches))\n                                matches[match_i, 0] = i\n",
+           "                            self_kmer = bucket_ptr[0]\n                            if self_kmer == other_kmer:\n                                # The k-mers are not only in the same\n                                # bucket, but they are actually equal\n                                if match_i >= matches.shape[0]:\n                                    # The 'matches' array is full\n                                    # -> double its size\n                                    matches = expand(np.asarray(matches))\n                                matches[match_i, 0] = i\n",
+           "R5.bucket-kmer-read-64-bit"),
+    Mutant("end-radix-uint32", KA, "        cdef int64 end_radix_multiplier = alphabet_length**(k-1)\n", "        cdef uint32 end_radix_multiplier = alphabet_length**(k-1)\n",
+           "R5.kmer-arithmetic-64-bit"),
+    Mutant("selection-entries-signed", KT, "        cdef int64 length\n        cdef uint32* kmer_ptr\n\n        # Store in new variable\n", "        cdef int64 length\n        cdef int32* kmer_ptr\n\n        # Store in new variable\n", "R5.table-entries-unsigned"),
+    Mutant("pruning-bound-diagonal", KS, "        cdef int32[:] max_scores = np.max(self._matrix.score_matrix(), axis=-1)\n",
+           "        cdef int32[:] max_scores = np.diag(self._matrix.score_matrix()).copy()\n", "R5.pruning-bound-is-row-maximum"),
+    Mutant("cached-syncmer-drops-permutation", SEL, "        super().__init__(alphabet, k, s, permutation, offset)\n", "        super().__init__(alphabet, k, s, offset=offset)\n",
+           "R5.selector-init-forwards"),
+    Mutant("mincode-range-exclusive", SEL, "            permutation_range = permutation.max - permutation.min + 1\n", "            permutation_range = permutation.max - permutation.min\n",
+           "R5.mincode-threshold"),
+    Mutant("similar-kmer-wrong-bucket", KT, "                            self_bucket_ptr = <uint32*>self_ptr_array[sim_bucket]\n", "                            self_bucket_ptr = <uint32*>self_ptr_array[bucket]\n",
+           "R4.bucket-of-the-kmer", "BucketKmerTable.match_table"),
     Mutant("get-kmers-counter-one-too-far", KT, "        for kmer in range(ptr_array.shape[0]):\n            if <uint32*> (ptr_array[kmer]) != NULL:\n                kmers[i] = kmer", "        for kmer in range(ptr_array.shape[0] + 1):\n            if <uint32*> (ptr_array[kmer]) != NULL:\n                kmers[i] = kmer", "R1.index-classified"),
     Mutant("count-validator-removed", KT, "        else:\n            _check_kmer_bounds(kmers, self._kmer_alph)\n\n            kmer_array = kmers.astype(np.int64, copy=False)",
            "        else:\n            kmer_array = kmers.astype(np.int64, copy=False)", "R1.array-validated"),
